@@ -33,10 +33,13 @@ func c18Request(kind, field string, size int) vlib.Req {
 	h := map[string][]string{}
 	method := "GET"
 	switch kind {
-	case "preflight":
+	case "preflight", "preflight-get":
 		method = "OPTIONS"
 		h["Origin"] = []string{"https://a.example"}
 		h["Access-Control-Request-Method"] = []string{"PUT"}
+		if kind == "preflight-get" {
+			h["Access-Control-Request-Method"] = []string{"GET"}
+		}
 		h["Access-Control-Request-Headers"] = []string{"x-a,x-b"}
 	case "actual":
 		h["Origin"] = []string{"https://a.example"}
@@ -262,11 +265,11 @@ func checkC18(c *vlib.Ctx) (string, string) {
 					ck.Report(c18Case{Cfg: l, Route: route}, vlib.Failf("configuration of the C18 alphabet rejected: %v", err))
 					return levelMC, rule
 				}
-				for _, kp := range []string{"preflight", "actual", "noncors", "preflight+preset", "actual+preset"} {
+				for _, kp := range []string{"preflight", "actual", "noncors", "preflight+preset", "actual+preset", "preflight-get"} {
 					kind, presetSfx, _ := strings.Cut(kp, "+")
 					preset := presetSfx != ""
 					for _, f := range fields {
-						if kind != "preflight" && !strings.HasPrefix(f.name, "origin-l") && f.name != "acrh-lines" {
+						if !strings.HasPrefix(kind, "preflight") && !strings.HasPrefix(f.name, "origin-l") && f.name != "acrh-lines" {
 							continue // ACRM/ACRH are only looked at on preflights; keep two fields as a control
 						}
 						baseOf := map[string]int{} // fingerprint -> smallest size
